@@ -43,24 +43,27 @@ func genC06(rng *rand.Rand, tier string) *sim.Plan {
 }
 
 type c06relay struct {
-	conn     *simnet.Conn
-	ver      byte
-	input    []byte          // the stream that will be delivered
-	pkts     []*mqttc.Packet // valid packets in the stream, in order
-	sizes    []int
-	validTo  int // number of leading packets that are intact (the rest may be damaged)
-	off      int // bytes delivered so far
-	eofAt    int // deliver EOF after this many bytes (-1: after everything)
-	eofSent  bool
-	outBuf   []byte
-	echoed   []*mqttc.Packet
-	done     bool
-	readErr  string
-	panicked string
-	totals   []uint32 // packets.TotalBytes of each packet read
-	nextAt   time.Time
-	garbled  bool
-	bodyHit  int // index of a packet whose body (not its fixed header) was damaged, or -1
+	conn        *simnet.Conn
+	ver         byte
+	input       []byte          // the stream that will be delivered
+	pkts        []*mqttc.Packet // valid packets in the stream, in order
+	sizes       []int
+	validTo     int // number of leading packets that are intact (the rest may be damaged)
+	off         int // bytes delivered so far
+	eofAt       int // deliver EOF after this many bytes (-1: after everything)
+	eofSent     bool
+	outBuf      []byte
+	echoed      []*mqttc.Packet
+	done        bool
+	readErr     string
+	panicked    string
+	totals      []uint32 // packets.TotalBytes of each packet read
+	read        []packets.Packet
+	postPack    []uint32 // TotalBytes after the packet was written back (Pack normalises the header)
+	sizeChanged string
+	nextAt      time.Time
+	garbled     bool
+	bodyHit     int // index of a packet whose body (not its fixed header) was damaged, or -1
 }
 
 func runC06(tb TB, p *sim.Plan) *sim.Outcome {
@@ -113,6 +116,23 @@ func runC06(tb TB, p *sim.Plan) *sim.Outcome {
 				}
 				pk := mqttc.RandomPacket(rng, typ, r.ver)
 				b := mqttc.Encode(pk, r.ver)
+				if typ == mqttc.PUBLISH && rng.IntN(6) == 0 {
+					// remaining length exactly at a variable-byte-integer boundary
+					target := pick(rng, []int{127, 128, 16383, 16384})
+					hl := 1
+					for b[hl]&0x80 != 0 {
+						hl++
+					}
+					remain := len(b) - hl - 1
+					if n := len(pk.Payload) + target - remain; n >= 0 {
+						pk.Payload = make([]byte, n)
+						for j := range pk.Payload {
+							pk.Payload[j] = 'a' + byte(j%26) // valid UTF-8 whatever the payload format indicator says
+						}
+						b = mqttc.Encode(pk, r.ver)
+						out.Probes["vbi_boundary_packets"]++
+					}
+				}
 				r.pkts = append(r.pkts, pk)
 				r.sizes = append(r.sizes, len(b))
 				r.input = append(r.input, b...)
@@ -222,11 +242,19 @@ func runC06(tb TB, p *sim.Plan) *sim.Outcome {
 						r.readErr = err.Error()
 						return
 					}
+					if n := len(r.read); n > 0 && r.sizeChanged == "" {
+						// the previous packet's size must not change because another packet was read
+						if now := packets.TotalBytes(r.read[n-1]); now != r.postPack[n-1] {
+							r.sizeChanged = fmt.Sprintf("packets.TotalBytes of packet #%d was %d after it had been read and written back and is %d after the next packet was read from the same reader", n-1, r.postPack[n-1], now)
+						}
+					}
 					r.totals = append(r.totals, packets.TotalBytes(pk))
+					r.read = append(r.read, pk)
 					if err := wr.WriteAndFlush(pk); err != nil {
 						r.readErr = "write: " + err.Error()
 						return
 					}
+					r.postPack = append(r.postPack, packets.TotalBytes(pk))
 				}
 			})
 		}
@@ -237,7 +265,7 @@ func runC06(tb TB, p *sim.Plan) *sim.Outcome {
 		}
 		chunk1 := fault == "chunk1"
 		drv := &c06driver{relays: relays, rng: rng, chunk1: chunk1, out: out}
-		err := sc.Loop(drv, 400000, time.Hour)
+		err := sc.Loop(drv, 2000000, time.Hour)
 		if err != nil && err != simrt.ErrIdle {
 			out.LoopErr = err
 		}
@@ -304,6 +332,16 @@ func runC06(tb TB, p *sim.Plan) *sim.Outcome {
 					}
 				} else {
 					out.Probes["damaged_rejected"]++
+				}
+			}
+			// C06.size (again, late): a packet's size must not change when the reader goes on to later packets
+			if r.sizeChanged != "" && !r.garbled {
+				fail("size", "totalbytes-changes", "relay %d (v%d): %s", i, r.ver, r.sizeChanged)
+			}
+			// C06.bound: a stream that ends inside a packet yields no packet for the incomplete bytes
+			if fault == "truncate" && i == 0 && !r.garbled && r.validTo < len(r.pkts) {
+				if frames := splitFrames(r.outBuf); len(frames) > r.validTo {
+					fail("bound", "accepted-truncated", "relay %d (v%d): the stream ended after %d of %d bytes, inside packet #%d (%s, %d bytes), yet the reader returned %d packets (only %d were complete)", i, r.ver, r.eofAt, len(r.input), r.validTo, mqttc.TypeName(r.pkts[r.validTo].Type), r.sizes[r.validTo], len(frames), r.validTo)
 				}
 			}
 			// C06.total: once EOF was delivered the reader must have returned
